@@ -573,7 +573,7 @@ func splitGopkgIn(path string) (prefix, pathMajor string, ok bool) {
 		return path, "", false
 	}
 	prefix, pathMajor = path[:i-2], path[i-2:]
-	if len(pathMajor) <= 2 || pathMajor[2] == '0' && pathMajor != ".v0" {
+	if len(pathMajor) <= 2 || pathMajor[2] == '-' || pathMajor[2] == '0' && pathMajor != ".v0" {
 		return path, "", false
 	}
 	return prefix, pathMajor, true
